@@ -252,7 +252,8 @@ example : ∃ s, Reachable { proto := .fixed, maxQ := 1, ncb := 1 } 2 s ∧ s.re
     threads before the indication delivery; `put(block=False)`; no server class disables the
     joining of handler threads in `server_close()` (the hypothesis behind the `tClose` guard, which the
     correspondence run cannot observe because it replaces the server object); callbacks are called
-    inside `try/except Exception`; queue.Full is answered with CIM_ERR_FAILED (1); the get timeout is
+    inside `try/except Exception`; `_callback_thread.join()` has no timeout (the `tJoin` guard);
+    `add_callback` deduplicates with `not in` (equality, so `ncb` counts distinct callbacks); queue.Full is answered with CIM_ERR_FAILED (1); the get timeout is
     positive.  An edit changing any of these breaks this theorem.  (The two facts that distinguish
     `proto = fixed` from `proto = old` – `_ind_queue = None` after `join()`, no `self._ind_queue` read in
     the callback loop – are checked against the tree under test by the harness, not here: the generated
@@ -262,6 +263,8 @@ theorem C16_source_structure :
     Pywbem.Generated.ListenerThreads.putNonBlocking = true ∧
     Pywbem.Generated.ListenerThreads.handlerThreadsJoined = true ∧
     Pywbem.Generated.ListenerThreads.callbackExceptionCaught = true ∧
+    Pywbem.Generated.ListenerThreads.joinWithoutTimeout = true ∧
+    Pywbem.Generated.ListenerThreads.dedupByEquality = true ∧
     Pywbem.Generated.ListenerThreads.queueFullStatus = 1 ∧
     Pywbem.Generated.ListenerThreads.queueGetTimeoutPositive = true := by
   decide
